@@ -504,8 +504,28 @@ pub fn rand_name(r: &mut Rng) -> Vec<u8> {
     }
 }
 
+/// Content that embeds ZIP record signatures: a complete nested archive (stored by jar/war/epub style
+/// producers), or an end-of-central-directory signature in the middle of other bytes.  Entry DATA may
+/// contain anything; only names and comments are restricted by the properties' quantifiers.
+pub fn signature_content(r: &mut Rng) -> Vec<u8> {
+    if r.chance(1, 2) {
+        let inner = Entry::stored(b"inner.txt", b"nested");
+        let mut l = Layout::new(vec![inner]);
+        if r.chance(1, 2) { l.comment = b"inner comment".to_vec(); }
+        mkzip::build(&l).bytes
+    } else {
+        let mut v = { let n = r.below(40) as usize; r.bytes(n) };
+        v.extend_from_slice(&[0x50, 0x4b, 0x05, 0x06]);
+        v.extend_from_slice(&[0u8; 18]);
+        let n = r.below(30) as usize;
+        v.extend_from_slice(&r.bytes(n));
+        v
+    }
+}
+
 pub fn rand_content(r: &mut Rng) -> Vec<u8> {
-    match r.below(6) {
+    match r.below(7) {
+        6 => signature_content(r),
         0 => vec![],
         1 => vec![r.next() as u8],
         2 => { let n = r.range(2, 100) as usize; r.bytes(n) },
